@@ -118,6 +118,7 @@ def gen_values(alg, values):
     for name in alg.var_names:
         vals[name] = mpf(values.get(name, 0)) if not name.startswith("__") else mp.mpf(0)
     vals["UNDEF"] = mp.mpf("7.77e77")
+    vals["DIVZERO"] = mp.mpf("9.99e99")
     names = list(alg.gen.keys())
     for name in alg.pool_names[:alg.pool_used]:
         atom, role = alg.gen_atom[name]
